@@ -952,6 +952,130 @@ func c17RunExpName(ctx *Ctx, c c17ExpNameCase) {
 	}
 }
 
+// --- option values built first, edited by the caller afterwards ---------------------------
+
+// An option is built from a collection; the caller then overwrites slots of that collection
+// in place (the backing array is the caller's) and evaluates with the option, possibly more
+// than once.  Whether the option looks at the value when it is built or when it is applied is
+// the library's choice - but the outcome must be the declared behaviour for one of the two
+// contents: the value as built, or the value as it is now.  What may never happen is an
+// evaluation that hands an unsupported Go value to the program, or a failure although the
+// content was supported at both moments.
+type c17EditCase struct {
+	Items []int   `json:"items"` // per slot: 0 String, 1 Integer, 2 unsupported int, 3 unsupported struct, 4 nested ok, 5 nested unsupported
+	Edits [][]int `json:"edits"` // per round: (slot, new kind) pairs applied before that round's evaluation
+}
+
+func c17EditItem(kind, i int) any {
+	switch kind {
+	case 0:
+		return system.String(fmt.Sprintf("s%d", i))
+	case 1:
+		return system.Integer(i)
+	case 2:
+		return 40 + i
+	case 3:
+		return struct{ X int }{i}
+	case 4:
+		return system.Collection{system.String(fmt.Sprintf("in%d", i))}
+	}
+	return system.Collection{system.String("in"), system.Collection{uint8(i)}}
+}
+
+func c17GenEdit(s Src) c17EditCase {
+	var c c17EditCase
+	for i := 0; i < s.Range(1, 4); i++ {
+		c.Items = append(c.Items, pickOne(s, []int{0, 0, 1, 1, 2, 3, 4, 5}))
+	}
+	for r := 0; r < s.Range(1, 3); r++ {
+		var e []int
+		for k := 0; k < s.Range(0, 2); k++ {
+			e = append(e, s.Intn(len(c.Items)), pickOne(s, []int{0, 1, 2, 3, 4, 5}))
+		}
+		c.Edits = append(c.Edits, e)
+	}
+	return c
+}
+
+func c17RunEdit(ctx *Ctx, c c17EditCase) {
+	kinds := append([]int{}, c.Items...)
+	coll := make(system.Collection, len(kinds))
+	for i, k := range kinds {
+		coll[i] = c17EditItem(k, i)
+	}
+	expect := func(ks []int) string { // the declared outcome for a content
+		var parts []string
+		for i, k := range ks {
+			switch k {
+			case 2, 3, 5:
+				return "ErrUnsupportedType"
+			case 4:
+				parts = append(parts, "nested")
+			default:
+				parts = append(parts, renderItem(c17EditItem(k, i)))
+			}
+		}
+		return strings.Join(parts, ",")
+	}
+	asBuilt := expect(kinds)
+	calls := 0
+	probe := func(in system.Collection) (system.Collection, error) { calls++; return system.Collection{system.Integer(1)}, nil }
+	e, err := fhirpath.Compile("%v.where(probe().exists())", compopts.AddFunction("probe", probe))
+	if err != nil {
+		ctx.Fail("harness: cannot compile the probe program", err.Error())
+		return
+	}
+	opt := evalopts.EnvVariable("v", coll)
+	edited := false
+	for _, ed := range c.Edits {
+		for j := 0; j+1 < len(ed); j += 2 {
+			kinds[ed[j]] = ed[j+1]
+			coll[ed[j]] = c17EditItem(ed[j+1], ed[j])
+			edited = true
+		}
+		now := expect(kinds)
+		calls = 0
+		var out system.Collection
+		var eerr error
+		g := guard(func() { out, eerr = e.Evaluate(fixtureInput(fixturePatient()), opt) })
+		ctx.Count("edited_option_values_evaluated")
+		if g.Panic != "" {
+			ctx.Fail("options: evaluation with an option whose collection the caller edited panics", fmt.Sprintf("%+v: %s", c, g.Panic))
+			return
+		}
+		got := ""
+		switch {
+		case eerr != nil && errors.Is(eerr, evalopts.ErrUnsupportedType):
+			got = "ErrUnsupportedType"
+			if calls != 0 {
+				ctx.Fail("options: the program ran although an option failed", fmt.Sprintf("%+v", c))
+				return
+			}
+		case eerr != nil:
+			got = "error: " + eerr.Error()
+		default:
+			var parts []string
+			for _, x := range out {
+				switch x.(type) {
+				case system.String, system.Integer:
+					parts = append(parts, renderItem(x))
+				case system.Collection:
+					parts = append(parts, "nested")
+				default:
+					parts = append(parts, fmt.Sprintf("UNSUPPORTED %T", x))
+				}
+			}
+			got = strings.Join(parts, ",")
+		}
+		nestedSomewhere := strings.Contains(asBuilt, "nested") || strings.Contains(now, "nested")
+		if got != now && got != asBuilt && !(nestedSomewhere && !strings.Contains(got, "UNSUPPORTED") && got != "ErrUnsupportedType") {
+			ctx.Fail("options: with a collection the caller edited after building the option, the outcome is neither the declared one for the value as built nor for the value as it is now", fmt.Sprintf("%+v: got %s; as built %s; now %s", c, got, asBuilt, now))
+			return
+		}
+	}
+	ctx.Eval(fmt.Sprint(c), edited, "stage:edited-option-values")
+}
+
 func TestC17(t *testing.T) {
 	r := newRec("C17",
 		"both spellings of each option are used alternately (compopts.AddFunction / fhirpath.WithFunction, evalopts.EnvVariable / fhirpath.WithConstant); element variables range over every message of the R4 datatypes file; with a failing compile option the error must be the one the same options give with the source `1`, also when the source does not parse or a call site has the wrong argument count.  evaluate-option cases: lists of 0..4 EnvVariable options (+ optionally OverrideTime) over {System value, element, resource, collection, empty collection, nested collection, duplicate name, predefined name context/ucum, unsupported Go int/string/struct/nil, unsupported value nested one and two levels inside collections, generated collection shapes (1..5 items per level, ≤ 3 levels, supported and unsupported items at any position)} in drawn order, with a program that references one of the variables at the root, inside select/where criteria, inside a custom-function argument, or %context/%ucum/%nope; instrumented custom functions count invocations and record input and arguments; an enumeration stage covers all orders of all lists of length ≤ 2 (quick) / ≤ 3 (thorough) over 12 option kinds.  compile-option cases: four well-typed functions plus 0..4 of {good 0/1/2-ary, proto-typed, wrong first parameter, wrong results, non-function, no parameters, variadic, built-in name, duplicate name} in rotated order × 15 call shapes (right/wrong argument types and counts, call sites at the root, in select, in where) × {returns collection, returns wrapped sentinel error, returns empty}.  non-trivial = ≥ 2 options with an invalid one among valid ones, or a variable referenced below the root, or a custom function call; distinct = FNV-64 of (options, program).  Nested-call cases: generated call trees (depth ≤ 4) over three pure custom functions of 1, 2 and 3 Integer parameters, at the root or once per item inside select(), evaluated twice: the result must equal the harness-side evaluation of the same tree.  Unknown-variable cases: %nope placed in every context that must evaluate it (either side of every operator, receiver and each argument of every implemented table function with well-typed other operands, criteria over a non-empty receiver, the taken iif branch), alone and nested 2..3 deep: Evaluate must return an error; the same programs with the variable supplied are control runs; counters unknown_variable_context_discriminates / _fails_anyway say in how many contexts an empty value in the hole evaluates without error (only there can a swallowed error be told apart)",
@@ -964,5 +1088,6 @@ func TestC17(t *testing.T) {
 		Stage[c17ExpNameCase]{Name: "experimental-name", Enum: c17EnumExpName, Run: c17RunExpName},
 		Stage[c17UnkCase]{Name: "unknown-variable-contexts", Enum: c17EnumUnk, Run: c17RunUnk},
 		Stage[c17UnkCase]{Name: "unknown-variable-nested", Gen: c17GenUnk, Run: c17RunUnk, N: pick(9000, 60000)},
+		Stage[c17EditCase]{Name: "edited-option-values", Gen: c17GenEdit, Run: c17RunEdit, N: pick(4000, 60000)},
 	)
 }
